@@ -23,13 +23,16 @@ SEEDS = {
  'C08b': ('C08', 'backmp11 history_impl<shallow_history>: the memory array is value-initialised instead of starting at the initial state ids (same idea as C03a, found independently)', 'first-ever entry through an event of the history list with a region whose initial state is not id 0'),
  'C09b': ('C09', 'backmp11 on_explicit_entry: untargeted regions are set to the initial state ids instead of asking the history policy', 'explicit entry / entry point / partial fork into a multi-region submachine with (always_)shallow_history after a previous visit'),
  'C10a': ('C10', 'backmp11 process_event_internal: the event pool is drained only after a direct call', 'completion-source state inside a submachine reached by a forwarded event'),
+ 'C10c': ('C10', 'backmp11 process_completion_transition: the busy mark is no longer SET (a reset-only scope guard replaces the set/clear pair)', 'a behaviour inside a completion transition calls process_event: dispatched mid-chain against a state being left'),
  'C11a': ('C11', 'backmp11 process_event_internal: blocking test moved after the event-pool block', 'interrupt state active while another region defers the event / event raised by the end-interrupt action'),
  'C12a': ('C12', 'backmp11: result pre-initialised and OR-ed through a reference, handler assignment dropped', 'exception in a region dispatched after a region that already handled the event'),
  'C12b': ('C12', 'backmp11 process_completion_transition: the catch handler returns HANDLED_FALSE at once, skipping m_event_processing = false', 'throw from a behaviour of a completion transition reached through process_event, nothing else pending'),
+ 'C12c': ('C12', 'back do_process_helper: the catch handler restores a snapshot of m_states ("make a failed event atomic")', 'throw after m_states was already switched: a later region of an orthogonal machine, or a non-default switch policy'),
  'C13a': ('C13', 'backmp11 favor_compile_time: transition_chain::execute starts from FALSE and its caller overwrites the submachine result', 'submachine answers GUARD_REJECT and the composite state has no enabled outgoing row for the event (favor_compile_time only)'),
  'C13b': ('C13', 'backmp11 favor_runtime_speed needs_forward_transition: no longer looks into sub-submachines (a type computation)', 'three-level hierarchy, event only the innermost machine has rows for, middle machine does not mention it'),
  'C14a': ('C14', 'puml parse_row_right: action length clamped to 0 when the guard is written before the action list', 'a transition line of the form  A -> B : ev [guard] / action'),
  'C15a': ('C15', 'ShallowHistoryImpl::operator=: remembered states loaded from the source\'s initial states', 'copy of a machine whose history region was left in a non-initial state, followed by a history re-entry'),
+ 'C15c': ('C15', 'back/back11 do_copy: the copy_helper pass (re-pointing the copied substates to the copy) removed as redundant', 'state using the sm_ptr policy in a copied machine: its fsm pointer designates the source'),
  'C16a': ('C16', 'history policies: serialize no longer archives m_initialStates (the memory of AlwaysHistory)', 'AlwaysHistory submachine left in a non-initial state, saved, restored, re-entered'),
  'C06b': ('C06', 'backmp11 favor_compile_time state_dispatch_table::dispatch: the submachine result is kept in a separate local, the outer result restarts from FALSE', 'event matching only guard-rejected rows inside an active composite (favor_compile_time)'),
  'C10b': ('C10', 'back process_event_internal: completion event issued before the busy mark is cleared', 'completion-source state entered by an event while another event is pending (queued, nested or deferred)'),
